@@ -36,6 +36,17 @@ CLAIMED = {
             "legal(op) ranges are the contract preconditions printed in the evidence; generate_common / per-op generators / generate_command_stream "
             "composition are not yet under contract in this revision.",
             "contract-based deductive verification (heap model with maps, ghost state, opaque invariants, modular calls)", "DESIGN.md 3/C06"),
+    "C08": ("Unbounded proof (Python side): encode_bias is the inverse of the 80-bit record reader (40-bit two's-complement bias, 32-bit scale, "
+            "6-bit shift, every byte in range); slice/core loops of encode_weight_and_scale_tensor (mechanical suffix slice, per core count and "
+            "weights/scale-only mode, loop invariants): every recorded (core, slice) range starts 16-byte aligned, after every earlier range (disjoint, "
+            "stream order), holds exactly one 10-byte record per output channel of the slice assigned to that core, weight section at the next "
+            "16-byte boundary with a 16-byte multiple length, is exactly the bytes appended for it; the stream length is a multiple of 16; the recorded "
+            "double-buffer sizes bound every slice of that parity.",
+            PYVC_NOTE + " Assumed (listed in the evidence): mlw_codec output length is a multiple of 16 (C07), _prepare_scale_and_bias returns one in-range "
+            "(scale, shift, bias) per channel, slice boundaries except the last are multiples of the core count and the last is the OFM depth (call sites). "
+            "Not yet under contract: create_weights / create_dma_op address derivation; the compression-cache clause (2-safety over the process-wide "
+            "cache) is outside this revision - a cached encoding being byte-identical to a fresh one is NOT decided.",
+            "contract-based deductive verification (mechanical suffix slice, loop invariants, ghost fields, proof hints at the recording site)", "DESIGN.md 3/C08"),
     "C09": ("Unbounded proof, per function and per numeric argument type, that quantise_scale & co compute exactly the TFLite "
             "reference multiplier/shift (bit-exact IEEE-754 reasoning in z3 FloatingPoint + bit-vectors) and the stated error/range bounds; "
             "average-pool divisor lemma per window-size class for all accumulators below 2**30; a forall-statement tests can only sample.",
@@ -80,6 +91,4 @@ NOT_APPLICABLE = {
     "C13": "totality of the whole compiler; per-function no_exception obligations do not decide it (DESIGN 4)",
     "C14": "2-safety over process histories and global mutable state (DESIGN 4)",
     "C16": "pipeline-emergent placement and natural-language report text (DESIGN 4)",
-    "C08": PLANNED, 
-    
 }
